@@ -88,6 +88,8 @@ class EIG(BaseRoutine):
                                dae.gx, dae.gy, dae.Tf,
                                dense=dense)
 
+        # the complete matrix is only kept when states with zero time constants are eliminated
+        self.Asc = None
         if len(self.zstate_idx) > 0:
             self.Asc = self.As
             self.As = self._reduce(*self._reorder())
